@@ -152,19 +152,19 @@ Definition slice_bounds (n : Z) (sl : slice) : option (Z * Z * Z) :=
     let stop := match sl_stop sl with None => if neg then lower else upper | Some v => clamp v end in
     Some (start, stop, step)%Z.
 
-(* list(range(start, stop, step)); fuel bounds the number of elements *)
-Fixpoint range_from (fuel : nat) (cur stop step : Z) : list Z :=
-  match fuel with
-  | O => []
-  | S f => if (if (0 <? step)%Z then (cur <? stop)%Z else (stop <? cur)%Z)
-           then cur :: range_from f (cur + step) stop step else []
-  end.
+(* list(range(start, stop, step)) for step <> 0: CPython computes the number of elements in closed form
+   (get_len_of_range) and the i-th element as start + i*step; no fuel is needed *)
+Definition range_count (start stop step : Z) : Z :=
+  if 0 <? step then (if start <? stop then (stop - start - 1) / step + 1 else 0)
+  else (if stop <? start then (start - stop - 1) / (- step) + 1 else 0).
+Definition range_list (start stop step : Z) : list Z :=
+  map (fun i => start + Z.of_nat i * step) (seq 0%nat (Z.to_nat (range_count start stop step))).
 
 (* range(n)[slice] as a list of indices *)
 Definition slice_indices (n : nat) (sl : slice) : option (list nat) :=
   match slice_bounds (Z.of_nat n) sl with
   | None => None
-  | Some (start, stop, step) => Some (map Z.to_nat (range_from n start stop step))
+  | Some (start, stop, step) => Some (map Z.to_nat (range_list start stop step))
   end.
 
 (* the dictionary {sweep_i: slice_i for slice_i, sweep_i in enumerate(range(n)[val])} *)
